@@ -333,7 +333,7 @@ Qed.
 (** * set / claim <id> *)
 Lemma set_txn_inv e i u agent graw evs :
   Inv graw -> set_txn e i u agent (finalize graw) = Some evs ->
-  exists g', replay_from graw evs = Ok g' /\ Inv g'.
+  exists g', replay_from graw evs = Ok g' /\ Inv g' /\ g_deps g' = g_deps graw.
 Proof.
   intros HI. unfold set_txn.
   destruct (result_req u) as [rq|]; [|discriminate].
@@ -349,9 +349,9 @@ Proof.
   destruct (is_some rq && upd_nonresult_empty u)%bool eqn:Honly.
   - (* result only *)
     intros [= <-]. destruct Hres as [->|(ev & t0 & -> & Hu & Hn & Hen & Hl & Hk)].
-    + exists graw. split; [reflexivity|assumption].
+    + exists graw. split; [reflexivity|split; [assumption|reflexivity]].
     + rewrite (replay_upds graw i t0 [ev] Hl (live_not_tombed _ _ _ HI Hl)) by (constructor; [done|constructor]).
-      eexists; split; [reflexivity|].
+      eexists; split; [reflexivity|]. split; [|reflexivity].
       cbn [fold_left]. destruct (ev_fun_fixed ev t0) as (Hid & Hkk & Hme & Hmc & Htc).
       pose proof (ev_fun_sc ev t0) as Hsc. rewrite Hn in Hsc. injection Hsc as Hst Hcl.
       pose proof (ev_fun_epic ev t0) as Hep. rewrite Hen in Hep.
@@ -375,7 +375,7 @@ Proof.
     assert (Hres_sc : Forall sc_neutral ev_res /\ Forall epic_neutral ev_res).
     { destruct Hres as [->|(ev & ? & -> & _ & Hn & Hen & _)]; split; repeat constructor; done. }
     destruct Hres_sc as [Hrs Hre].
-    rewrite (replay_upds graw i t0 _ Hl Htomb Hall). eexists; split; [reflexivity|].
+    rewrite (replay_upds graw i t0 _ Hl Htomb Hall). eexists; split; [reflexivity|]. split; [|reflexivity].
     set (t' := fold_left _ _ t0).
     destruct (fold_sc (ev_res ++ sevs) t0) as (Hfsc & Hfid & Hfk & Hfep & Hfme & Hfmc & Hftc). fold t' in Hfsc, Hfid, Hfk, Hfep, Hfme, Hfmc, Hftc.
     rewrite fold_left_app, (fold_sc_neutral _ _ Hrs) in Hfsc.
@@ -423,7 +423,7 @@ Qed.
 Lemma claim_oldest_inv e epic agent graw t rest :
   Inv graw -> agent <> "" -> ready_tasks (finalize graw) epic = t :: rest ->
   exists g', replay_from graw [EClaim (t_id t) agent (Some (e_now e)); EState (t_id t) "doing" (Some (e_now e))] = Ok g'
-             /\ Inv g'.
+             /\ Inv g' /\ g_deps g' = g_deps graw.
 Proof.
   intros HI Hag Hrt.
   assert (Hin : t ∈ ready_tasks (finalize graw) epic) by (rewrite Hrt; left).
@@ -432,7 +432,7 @@ Proof.
   mig t0. apply is_ready_todo in Hr as [Hst Hcl]. rewrite Hmst in Hst. rewrite Hmcl in Hcl. rewrite Hmk in Hk.
   destruct (inv_key graw HI k t0 Hl0) as [Hkey Hcr]. rewrite Hmid, Hkey.
   rewrite (replay_upds graw k t0 _ Hl0 (live_not_tombed _ _ _ HI Hl0)) by (repeat constructor).
-  eexists; split; [reflexivity|]. cbn [fold_left ev_fun].
+  eexists; split; [reflexivity|]. split; [|reflexivity]. cbn [fold_left ev_fun].
   apply (inv_put graw k t0); try done; cbn.
   - intros _. split; [reflexivity|]. apply claim_inv_doing. exact Hag.
   - rewrite Hk. discriminate.
@@ -491,7 +491,7 @@ Proof. repeat split. Qed.
 
 Lemma new_txn_inv e is_epic title body epic u agent graw evs r :
   Inv graw -> new_txn e is_epic title body epic u agent (finalize graw) = Some (evs, r) ->
-  exists g', replay_from graw evs = Ok g' /\ Inv g'.
+  exists g', replay_from graw evs = Ok g' /\ Inv g' /\ g_deps g' = g_deps graw.
 Proof.
   intros HI. unfold new_txn.
   set (u' := Upd None None None (u_state u) (u_claim u) (u_rpath u) (u_rsum u)).
@@ -515,7 +515,7 @@ Proof.
       rewrite lookup_fmap in Hepok. destruct (g_tasks graw !! epic) as [et|]; [|discriminate].
       cbn in Hepok. mig et. exists et. split; [done|congruence]. }
   destruct (is_epic || upd_empty u')%bool eqn:Hplain.
-  { intros [= <- _]. exists (put graw i t). split; [|done]. unfold replay_from. cbn [foldM]. rewrite Hcreate. done. }
+  { intros [= <- _]. exists (put graw i t). split; [|split; [done|reflexivity]]. unfold replay_from. cbn [foldM]. rewrite Hcreate. done. }
   apply orb_false_elim in Hplain as [Hisep _]. subst is_epic. cbn in ep.
   destruct (result_req u') as [rq|]; [|discriminate].
   set (g' := Graph _ _ _).
@@ -529,14 +529,15 @@ Proof.
   { destruct Hres as [->|(ev & -> & ? & ? & ?)]; repeat split; repeat constructor; done. }
   destruct Hrs as (Hr1 & Hr2 & Hr3).
   assert (Hfin : forall sevs, set_spec i t u' sevs \/ sevs = [] ->
-            exists g2, replay_from graw (ENew false i uuid ep "todo" title body (Some (e_now e)) :: ev_res ++ sevs) = Ok g2 /\ Inv g2).
+            exists g2, replay_from graw (ENew false i uuid ep "todo" title body (Some (e_now e)) :: ev_res ++ sevs) = Ok g2 /\ Inv g2
+                       /\ g_deps g2 = g_deps graw).
   { intros sevs Hspec.
     assert (Hupd : Forall (is_upd i) sevs) by (destruct Hspec as [[]| ->]; [done|constructor]).
     unfold replay_from. cbn [foldM]. rewrite Hcreate.
     change (foldM apply_event (ev_res ++ sevs) (put graw i t)) with (replay_from (put graw i t) (ev_res ++ sevs)).
     assert (Hall : Forall (is_upd i) (ev_res ++ sevs)) by (apply Forall_app; done).
     rewrite (replay_upds (put graw i t) i t _ (put_lookup _ _ _) Hnt Hall). rewrite put_put.
-    eexists; split; [reflexivity|].
+    eexists; split; [reflexivity|]. split; [|reflexivity].
     destruct (fold_sc (ev_res ++ sevs) t) as (Hfsc & Hfid & Hfk & Hfep & Hfme & Hfmc & Hftc).
     set (t' := fold_left (fun t e => ev_fun e t) (ev_res ++ sevs) t) in *.
     rewrite fold_left_app, (fold_sc_neutral _ _ Hr2) in Hfsc.
